@@ -463,6 +463,10 @@ fn eval(a: &[String]) -> String {
       }
       out
     }
+    "hidden_stems" => {
+      use tyme4rs::tyme::sixtycycle::EarthBranch;
+      EarthBranch::from_index(v[0] as isize).get_hide_heaven_stems().iter().map(|h| h.get_heaven_stem().get_index().to_string()).collect::<Vec<String>>().join(" ")
+    }
     "six_star" => {
       // month number, leap flag, day -> six star index on a real lunar day with these
       use tyme4rs::tyme::lunar::{LunarDay, LunarYear};
